@@ -1,8 +1,11 @@
 #!/bin/sh
-# usage: tools/confirm_mutant.sh <seed id> <property> <dir with patch.diff demo.sh README.txt>
+# usage: tools/confirm_mutant.sh <seed id> <property> <dir with patch.diff demo.sh README.txt|note.txt> [defect-exit-0]
+# (with the 4th argument the demo's convention is inverted: it exits 0 when the defect shows and 1 when it does not)
 # Independently confirms a seeded change in a scratch worktree: applies, builds, demo must fail (exit 1) with the change and
 # pass (exit 0) without it, and the repository's test suite must give the baseline counts.  Writes /verif/seeded/<id>/.
-id=$1; prop=$2; src=$3
+id=$1; prop=$2; src=$3; inv=$4
+want_clean=0; want_mut=1
+[ -n "$inv" ] && { want_clean=1; want_mut=0; }
 wt=/tmp/confirm-$id
 dst=/verif/seeded/$id
 git -C /repo worktree remove --force $wt 2>/dev/null
@@ -22,11 +25,15 @@ pass=$(grep -c PASS /tmp/confirm-$id.log); fail=$(grep -ci fail /tmp/confirm-$id
 mkdir -p $dst
 cp $src/patch.diff $src/demo.sh $dst/
 [ -f $src/README.txt ] && cp $src/README.txt $dst/
+[ -f $src/note.txt ] && cp $src/note.txt $dst/README.txt
+for extra in $src/*.cpp; do [ -f "$extra" ] && cp "$extra" $dst/; done
+# demos of this batch use their own directory under /tmp as scratch space; point the stored copy at a neutral one
+sed -i "s#$src#/tmp/seeded-scratch-$id#g" $dst/demo.sh
 ok=false
-[ $build_rc = 0 ] && [ $clean_rc = 0 ] && [ $mut_rc = 1 ] && [ $pass = 7988 ] && [ $fail = 0 ] && ok=true
+[ $build_rc = 0 ] && [ $clean_rc = $want_clean ] && [ $mut_rc = $want_mut ] && [ $pass = 7988 ] && [ $fail = 0 ] && ok=true
 cat > $dst/meta.json <<EOM
 {"id": "$id", "property": "$prop", "base_commit": "$head", "compiles": $([ $build_rc = 0 ] && echo true || echo false),
- "demo_exit_without_change": $clean_rc, "demo_exit_with_change": $mut_rc,
+ "demo_exit_without_change": $clean_rc, "demo_exit_with_change": $mut_rc, "demo_convention": "$([ -n "$inv" ] && echo 'exit 0 = defect shows' || echo 'exit 0 = property holds')",
  "suite_pass_lines_with_change": $pass, "suite_fail_lines_with_change": $fail, "baseline_pass_lines": 7988,
  "confirmed": $ok,
  "ran": "tools/confirm_mutant.sh: scratch worktree of /repo HEAD, make -j16 -C build, demo.sh on clean and changed build, make -k -j8 tests on the changed tree"}
